@@ -124,8 +124,45 @@ def partition(ctx, cr):
             meth = p.split("::")[-1]
             if fld in ("not_compliant", "compliant", "not_applicable") and meth not in ("extend",) and mutably(cf, t["args"][0]):
                 other.append("%s.%s (l.%s)" % (fld, meth, t.get("ln")))
+        # ... and each bucket receives the whole bucket of the same name of the other report: the operand of extend is that field itself
+        # (possibly through into_iter / iter / cloned / drain), not a filtered, truncated or cross-wired sequence
+        from rules.c08 import def_of_local
+        WHOLE = ("std::iter::IntoIterator::into_iter", "std::iter::Iterator::cloned", "std::iter::Iterator::copied", "std::ops::Deref::deref",
+                 "std::ops::DerefMut::deref_mut", "std::clone::Clone::clone")
+
+        def whole_field(operand, depth=0):
+            pl = M.op_place(operand)
+            for _ in range(10):
+                if pl is None:
+                    return None
+                if not isinstance(pl, int):
+                    names = [pr[2] for pr in M.place_projs(pl) if isinstance(pr, list) and pr[0] == "f" and pr[2]]
+                    if names:
+                        return (M.place_local(pl), names[-1])
+                    pl = M.place_local(pl)
+                    continue
+                d = def_of_local(cf, pl)
+                if not d:
+                    return None
+                if d[0] == "call":
+                    c = d[2]
+                    cp, cd = M.norm_path(c["fn"].get("path", "")), M.norm_path(c["fn"].get("decl", ""))
+                    if c["args"] and (cd in WHOLE or cp.split("::")[-1] in ("iter", "drain", "into_iter") and len(c["args"]) == 1):
+                        pl = M.op_place(c["args"][0])
+                        continue
+                    return ("call", cp)
+                rv = d[2]["rv"]
+                pl = rv["p"] if rv["r"] == "ref" else M.op_place(rv["o"]) if rv["r"] == "use" else None
+            return None
+        for p, t in calls:
+            if p.endswith("::extend") and len(t["args"]) == 2:
+                fld = receiver_field(cr, cf, t["args"][0])
+                if fld in ("not_compliant", "compliant", "not_applicable"):
+                    src = whole_field(t["args"][1])
+                    if not (src and src[1] == fld and src[0] != 1):
+                        other.append("%s.extend(%s) (l.%s)" % (fld, "a sequence computed by %s" % src[1] if src and src[0] == "call" else "%s" % (src[1] if src else "?"), t.get("ln")))
         ctx.ob(rule, rule + ":combine:only-unions", not other, ("combine also applies %s: a rule reported by one rules file disappears from / moves between the buckets of the combined record" % other) if other
-               else "the three buckets are only extended", fn=cf)
+               else "the three buckets are only extended, each with the whole bucket of the same name", fn=cf)
     # the accumulator the structured reporter starts from must carry the identity of Status::and
     rk = "<commands::reporters::validate::structured::CommonStructuredReporter as commands::reporters::validate::structured::StructuredReporter>::report"
     rf = cr.fns.get(rk)
@@ -455,6 +492,82 @@ def every_rules_file_kept(ctx):
             ctx.ob(rule, rule + ":every-rules-file-kept", not bad and n_ok >= 1, "; ".join(sorted(set(bad))[:2]) or "%d success paths, each pushes the item once" % n_ok, fn=f)
         except ai.Undecided as e:
             ctx.ob(rule, rule + ":every-rules-file-kept", False, "undecided %s" % e, fn=f)
+    # the structured evaluator collects its rules files and its (parameter-merged) data files with two folds of its own: same obligation —
+    # one push per element, except that a rules file that does not parse (Err, reported) or is empty (Ok(None)) is not collected
+    SE = "commands::reporters::validate::structured::StructuredEvaluator::evaluate"
+    f = cr.fns.get(SE)
+    if not f:
+        ctx.lost(rule, rule + ":structured-every-file-kept", SE)
+    else:
+        rets = []
+
+        class HS(ai.Hooks):
+            lazy_pipes = True
+
+            def inline(self, a, st, k, fn):
+                return k.startswith(SE + "::{closure")
+
+            def ret(self, a, st, v):
+                rets.append((v, st.mon or Mon()))
+
+            def loop_of(self, st):
+                for fr in reversed(st.frames):
+                    if fr.fkey.startswith(SE + "::{closure"):
+                        return fr.fkey[len(SE) + 2:].split("::")[0]
+                    if fr.body.get("closure", "").startswith(SE + "::{closure"):
+                        return fr.body["closure"][len(SE) + 2:].split("::")[0]
+                return "body"
+
+            def call(self, a, st, term, callee, args):
+                p = M.norm_path(callee.get("path", ""))
+                decl = M.norm_path(callee.get("decl", ""))
+                mon = st.mon or Mon()
+                if decl == "std::iter::Iterator::next" and term.get("to") is not None:
+                    it = a.resolve(st, args[0])
+                    if it[0] == "ref":
+                        it = a.resolve(st, a.read_at(st, it[1], it[2]))
+                    if ai.is_pipe(it):
+                        return None
+                    lp = self.loop_of(st)
+                    if mon.get("taken:" + lp):
+                        return [(("enum", ai.OPTION, 0, ()), mon)]
+                    return [(("enum", ai.OPTION, 1, (a.sym(st, "ITEM:" + lp),)), mon.set(**{"taken:" + lp: True})), (("enum", ai.OPTION, 0, ()), mon)]
+                if p.endswith("validate::parse_rules"):
+                    lp = self.loop_of(st)
+                    return [(("enum", ai.RESULT, 0, (("enum", ai.OPTION, 1, (("sym", "RULES"),)),)), mon.set(parsed="some", rules_loop=lp)),
+                            (("enum", ai.RESULT, 0, (("enum", ai.OPTION, 0, ()),)), mon.set(parsed="none", rules_loop=lp)),
+                            (("enum", ai.RESULT, 1, (("sym", "PARSE_ERR"),)), mon.set(parsed="err", rules_loop=lp))]
+                if p == "std::vec::Vec::push":
+                    lp = self.loop_of(st)
+                    return [(("tuple", ()), mon.set(**{"pushes:" + lp: mon.get("pushes:" + lp, 0) + 1}))]
+                if p.endswith("Writer::write_err"):
+                    return [(("enum", ai.RESULT, 0, (("tuple", ()),)), mon), (("enum", ai.RESULT, 1, (("sym", "IOERR"),)), mon)]
+                if decl.endswith("StructuredReporter::report"):
+                    return [(("enum", ai.RESULT, 0, (("sym", "CODE"),)), mon.set(reported=True))]
+                return None
+        a = ai.AI(cr, HS(), max_states=600000)
+        try:
+            a.run(SE, mon=Mon())
+            ctx.states += a.n_states
+            bad, n_rules, n_data = [], 0, 0
+            for v, mon in rets:
+                if not mon.get("reported"):
+                    continue        # error exits before the report
+                for k in [k for k in mon.d if k.startswith("taken:")]:
+                    lp = k[6:]
+                    pushes = mon.get("pushes:" + lp, 0)
+                    if lp == mon.get("rules_loop"):
+                        want = 1 if mon.get("parsed") == "some" else 0
+                        n_rules += 1
+                        if pushes != want:
+                            bad.append("a rules file whose parse result is %s is collected %d times (expected %d): it is dropped / duplicated before the report" % (mon.get("parsed"), pushes, want))
+                    else:
+                        n_data += 1
+                        if pushes != 1:
+                            bad.append("a data file is collected %d times before the report" % pushes)
+            ctx.ob(rule, rule + ":structured-every-file-kept", not bad and n_rules >= 1 and n_data >= 1, "; ".join(sorted(set(bad))[:2]) or "%d rules-file and %d data-file paths, each collected exactly once" % (n_rules, n_data), fn=f)
+        except ai.Undecided as e:
+            ctx.ob(rule, rule + ":structured-every-file-kept", False, "undecided %s" % e, fn=f)
     # ... and nothing removes entries from the collected lists of rules files / data files in Validate::execute
     EX = "<commands::validate::Validate as commands::Executable>::execute"
     removers = ("dedup", "dedup_by", "dedup_by_key", "retain", "retain_mut", "remove", "swap_remove", "truncate", "drain", "pop", "clear", "split_off")
